@@ -27,6 +27,10 @@ pub struct Case {
     /// end exactly: the event function is then exactly zero at an accepted step; beside one; mid-step)
     #[serde(default)]
     pub ev_places: Vec<Place>,
+    /// first_step as a fraction of the span (the output handler then reports the first interval through its own
+    /// interpolation path in the runs without t_eval, and not in those with it)
+    #[serde(default)]
+    pub first_step: Option<f64>,
 }
 
 struct One {
@@ -46,7 +50,7 @@ fn one(c: &Case, prob: &Prob, evs: &[EvSpec], t_eval: Option<Vec<f64>>, dense: b
         method: c.method,
         rtol: c.rtol.fit(n),
         atol: c.atol.fit(n),
-        first_step: None,
+        first_step: if c.method == Meth::RK4 { None } else { c.first_step.map(|f| f * sp.len() * sp.dir()) },
         max_step: c.max_step.map(|f| f * sp.len()),
         max_steps: c.max_steps,
         t_eval,
@@ -169,9 +173,9 @@ pub fn strategy() -> BoxedStrategy<Case> {
         proptest::collection::vec(event_spec(6, false), 0..=3),
         proptest::option::weighted(0.2, fr(0.02, 0.5)),
         proptest::option::weighted(0.1, 3usize..60),
-        prop_oneof![1 => Just(vec![]).boxed(), 1 => places(3).boxed()],
+        (prop_oneof![1 => Just(vec![]).boxed(), 1 => places(3).boxed()], proptest::option::weighted(0.3, log10(-3.0, -0.5))),
     )
-        .prop_map(|(prob, span, method, (rtol, atol), analytic_jac, t_eval, events, max_step, max_steps, ev_places)| Case { prob, span, method, rtol, atol, analytic_jac, t_eval, events, max_step, max_steps, ev_places })
+        .prop_map(|(prob, span, method, (rtol, atol), analytic_jac, t_eval, events, max_step, max_steps, (ev_places, first_step))| Case { prob, span, method, rtol, atol, analytic_jac, t_eval, events, max_step, max_steps, ev_places, first_step })
         .boxed()
 }
 
